@@ -274,6 +274,28 @@ def run(tier, seed, replay=None):
         sql, meta = plangen.gen_statement(rng, plangen.ALL_FEATURES)
         inputs.append((sql, rng.choice(cats)[0]))
     catd = dict(cats)
+    # time-series settings: predictor metadata in list and legacy-dict form, with group_by_columns absent / None / [] / one / two columns,
+    # windows of several sizes; joins with the model on either side, under UNION, with LIMIT and LATEST
+    ts_meta = {}
+    for tag, extra in (('absent', {}), ('none', {'group_by_columns': None}), ('empty', {'group_by_columns': []}), ('g', {'group_by_columns': ['g']}),
+                       ('gh', {'group_by_columns': ['g', 'h']})):
+        for w in (1, 3):
+            m = dict({'timeseries': True, 'order_by_column': 't', 'window': w, 'integration_name': 'proj'}, **extra)
+            if tag == 'absent':
+                m['group_by_columns'] = []          # (a missing key is a KeyError today on every path: not part of this corpus)
+            ts_meta[f'ts_{tag}_{w}_list'] = dict(integrations=['int1', 'int2', 'proj'], predictor_metadata=[dict(m, name='tp')])
+            ts_meta[f'ts_{tag}_{w}_legacy'] = dict(integrations=['int1', 'int2', 'proj'], predictor_metadata={'tp': dict(m)})
+    catd.update(ts_meta)
+    if not replay:
+        import c15
+        ts_sql = ['select * from int1.t1 as ta join proj.tp as m', 'select * from int1.t1 as ta join proj.tp as m where ta.t > latest',
+                  'select * from int1.t1 as ta join proj.tp as m where ta.t > 3 and ta.g = 1 limit 2', 'select * from proj.tp as m join int1.t1 as ta where ta.t between 1 and 4',
+                  'select * from int1.t1 as ta join proj.tp as m where ta.t = 2 union select * from int1.t1 as ta join proj.tp as m where ta.t < 5',
+                  'select m.t, ta.g from int1.t1 as ta left join proj.tp as m where ta.t >= 2 and ta.g in (0, 1) and ta.h = 2']
+        ts_sql += [c15.gen_case(rng)['sql'] for _ in range(20 if tier == 'quick' else 300)]
+        for s_ in ts_sql:
+            for cn_ in (list(ts_meta) if tier != 'quick' else rng.sample(list(ts_meta), 6)):
+                inputs.append((s_, cn_))
     rows = []
     stats = {'PlanningException': 0, 'NotImplementedError': 0, 'internal': 0, 'plans': 0, 'parse_error': 0}
     internal = {}
